@@ -415,7 +415,7 @@ Qed.
 
 (* Level 2: reading the counter aggregate after two levels of downsampling *)
 Lemma level2_full nc1 nc2 data l1 l2 :
-  valid_counter res1 data -> (1 <= length l1 / nc2)%nat ->
+  valid_counter res1 data ->
   level1 res1 nc1 data = Some l1 -> level2 res2 nc2 l1 = Some l2 ->
   exists emitted,
     read_counter l2 = Some emitted /\
@@ -425,8 +425,8 @@ Lemma level2_full nc1 nc2 data l1 l2 :
     (keep_nonnan data <> [] ->
        emitted <> [] /\ snd (last emitted (0, 0)) = adj (map snd (keep_nonnan data))).
 Proof.
-  intros Hv Hbs E1 E2. pose proof Hv as (_ & Hstrict & _).
-  destruct (level2_structure res1 res2 res1_pos res2_pos nc1 nc2 data l1 l2 Hv Hbs E1 E2)
+  intros Hv E1 E2. pose proof Hv as (_ & Hstrict & _).
+  destruct (level2_structure res1 res2 res1_pos res2_pos nc1 nc2 data l1 l2 Hv E1 E2)
     as (batches & parts & El1 & Hcat & Hcp & Hne & Hpres & Hch & R & Hcb & Hsep).
   set (emitted := expect None (map (q2_of res1 res2) parts)) in *.
   assert (Hks : StronglySorted Z.lt (map fst (keep_nonnan data))) by (apply keep_nonnan_sorted_lt; exact Hstrict).
@@ -476,12 +476,12 @@ Proof.
 Qed.
 
 Lemma level2_pred nc1 nc2 data l1 l2 :
-  valid_input res1 res2 data = true -> (1 <= length l1 / nc2)%nat ->
+  valid_input res1 res2 data = true ->
   level1 res1 nc1 data = Some l1 -> level2 res2 nc2 l1 = Some l2 ->
   exists emitted, read_counter l2 = Some emitted /\ level_ok (keep_nonnan data) emitted = true.
 Proof.
-  intros Hv Hbs E1 E2.
-  destruct (level2_full nc1 nc2 data l1 l2 (valid_input_counter _ _ _ Hv) Hbs E1 E2) as (em & R & A & S & Z0 & L).
+  intros Hv E1 E2.
+  destruct (level2_full nc1 nc2 data l1 l2 (valid_input_counter _ _ _ Hv) E1 E2) as (em & R & A & S & Z0 & L).
   exists em. split; [exact R|].
   unfold level_ok, reads_ok, values_ok. apply andb_true_iff. split; [apply andb_true_iff; split|].
   - apply forallb_forall. intros s Hs. rewrite Forall_forall in A. apply Z.eqb_eq. apply A. exact Hs.
@@ -526,12 +526,11 @@ Proof.
     specialize (IH _ Hs). destruct (aggr_loop cw f res bs (skipn j (k0 :: r))); [discriminate|congruence].
 Qed.
 
-Lemma level2_terminates res2 nc2 l1 :
-  (1 <= length l1 / nc2)%nat -> exists l2, level2 res2 nc2 l1 = Some l2.
+Lemma level2_terminates res2 nc2 l1 : exists l2, level2 res2 nc2 l1 = Some l2.
 Proof.
-  intros H. unfold level2, downsample_aggr.
-  pose proof (aggr_loop_total res2 _ H (length l1) l1 (le_n _)) as T.
-  destruct (aggr_loop cw (length l1) res2 (length l1 / nc2) l1) as [out|]; [eexists; reflexivity|congruence].
+  unfold level2, downsample_aggr.
+  pose proof (aggr_loop_total res2 _ (Nat.le_max_r (length l1 / nc2) 1) (length l1) l1 (le_n _)) as T.
+  destruct (aggr_loop cw (length l1) res2 (Nat.max (length l1 / nc2) 1) l1) as [out|]; [eexists; reflexivity|congruence].
 Qed.
 
 Lemma two_levels res1 k nc1 nc2 data :
@@ -539,14 +538,13 @@ Lemma two_levels res1 k nc1 nc2 data :
   exists l1 read1,
     level1 res1 nc1 data = Some l1 /\ read_counter l1 = Some read1 /\
     level_ok (keep_nonnan data) read1 = true /\
-    ((1 <= length l1 / nc2)%nat ->
-     exists l2 read2,
-       level2 (k * res1) nc2 l1 = Some l2 /\ read_counter l2 = Some read2 /\
-       level_ok (keep_nonnan data) read2 = true).
+    exists l2 read2,
+      level2 (k * res1) nc2 l1 = Some l2 /\ read_counter l2 = Some read2 /\
+      level_ok (keep_nonnan data) read2 = true.
 Proof.
   intros H1 Hk Hv. destruct (level1_pred res1 (k * res1) nc1 data Hv) as (l1 & r1 & E1 & R1 & L1).
-  exists l1, r1. repeat split; try assumption. intros Hbs.
-  destruct (level2_terminates (k * res1) nc2 l1 Hbs) as [l2 E2].
-  destruct (level2_pred res1 k H1 Hk nc1 nc2 data l1 l2 Hv Hbs E1 E2) as (r2 & R2 & L2).
+  exists l1, r1. repeat split; try assumption.
+  destruct (level2_terminates (k * res1) nc2 l1) as [l2 E2].
+  destruct (level2_pred res1 k H1 Hk nc1 nc2 data l1 l2 Hv E1 E2) as (r2 & R2 & L2).
   exists l2, r2. repeat split; assumption.
 Qed.
